@@ -224,6 +224,7 @@ func GenTree(prop string, r *sim.Rand, tier string) sim.Script {
 			}
 		}
 	}
+	lastVal := map[string][]byte{}
 	open := []int{0} // open trie ids
 	parent := map[int]int{0: -1}
 	next := 1
@@ -247,7 +248,12 @@ func GenTree(prop string, r *sim.Rand, tier string) sim.Script {
 				s.Ops = append(s.Ops, Op{K: "insmax", T: t, P: p, V: []byte(fmt.Sprintf("V%d", n)), N: int64([]int{r.Intn(12), r.Intn(12), r.Intn(80), r.Intn(700)}[r.Intn(4)])})
 				break
 			}
-			s.Ops = append(s.Ops, Op{K: "ins", T: t, P: p, V: genValue(r, c.valProfile, n)})
+			v := genValue(r, c.valProfile, n)
+			if old, ok := lastVal[p]; ok && (r.Chance(1, 5) || (prop == "C03" && r.Chance(1, 4))) {
+				v = old // re-insert exactly what this path held before (in this trie or any other of the tree)
+			}
+			lastVal[p] = v
+			s.Ops = append(s.Ops, Op{K: "ins", T: t, P: p, V: v})
 		case 1:
 			s.Ops = append(s.Ops, Op{K: "del", T: t, P: p})
 		case 2:
@@ -258,8 +264,8 @@ func GenTree(prop string, r *sim.Rand, tier string) sim.Script {
 			s.Ops = append(s.Ops, Op{K: "insempty", T: t, P: p})
 		case 5:
 			// open a child of t (mostly of the root)
-			if prop == "C03" && r.Chance(4, 5) {
-				t = 0
+			if prop == "C03" && r.Chance(3, 5) {
+				t = 0 // (otherwise: nested transactions, children of children)
 			}
 			s.Ops = append(s.Ops, Op{K: "child", T: t})
 			open = append(open, next)
